@@ -265,13 +265,14 @@ def run_panic_inventory(ctx, rid, entries, text, ctx_sensitive=False, kinds=None
                 continue
         chain = cg.chain(parent, s.fn)
         is_index_call = s.kind == "call" and s.detail.rsplit("::", 1)[-1] in ("index", "index_mut") and ("Index<" in s.detail or "IndexMut<" in s.detail)
-        if (declared_invariants_undecided is True and is_index_call) or \
+        is_unwrap = s.kind == "call" and s.detail.rsplit("::", 1)[-1] in ("unwrap", "expect", "unwrap_unchecked") and s.detail.startswith(("core::option::Option", "core::result::Result"))
+        if (declared_invariants_undecided is True and (is_index_call or is_unwrap)) or \
                 (declared_invariants_undecided is True and s.kind == "assert" and s.detail == "bounds") or (declared_invariants_undecided and s.kind == "call" and s.detail.startswith("core::panicking::")) \
                 or (declared_invariants_undecided is True and s.kind == "assert" and s.detail.startswith("overflow:")):
             # an index whose range this analysis cannot bound, or an assertion / unreachable!() the author declared:
             # whether it can fire depends on values; no verdict (reported, not an alarm). Calls of panicking library
             # functions (unwrap, expect, Duration arithmetic, slicing, division) stay violations.
-            ctx.lost(rid, "%s (new %s in %s: cannot be shown unreachable, not assumed reachable)" % (s.key, ("bounds check " + s.info if s.detail == "bounds" else "arithmetic overflow check " + s.info) if s.kind == "assert" else "index into a Vec / slice" if is_index_call else "assertion / explicit panic", f["display"]))
+            ctx.lost(rid, "%s (new %s in %s: cannot be shown unreachable, not assumed reachable)" % (s.key, ("bounds check " + s.info if s.detail == "bounds" else "arithmetic overflow check " + s.info) if s.kind == "assert" else "index into a Vec / slice" if is_index_call else "unwrap / expect of a value the author declares present" if is_unwrap else "assertion / explicit panic", f["display"]))
             continue
         ctx.ob(rid, s.key, False,
                "reachable panic site without a guard argument: %s %s %s in %s; reached via %s"
